@@ -17,3 +17,24 @@ package l4tls
 //@ requires cfg != nil
 //@ safety C03
 //@ assigns[C03] all(cfg)
+
+// ------------------------------------------------------------------ the TLS matcher (C07, record layer)
+// The ClientHello parser (cryptobyte loops over the extension list) is NOT verified: its contract is
+// assumed (it only builds its result).
+//@ func parseRawClientHello(data []byte) (info ClientHelloInfo)
+//@ trusted
+//@ assigns nothing
+
+// Record-layer clauses of C07: a record that is not a TLS handshake (first byte other than 0x16) never
+// matches; an incomplete record header or hello is never decided either way (the matcher asks for
+// more data exactly then). What the parser extracts from a complete hello is not decided.
+//@ ghostfn tlsreclen(cx *layer4.Connection) int = int(cx.buf[cx.offset+3])<<8 | int(cx.buf[cx.offset+4])
+//@ func (m *MatchTLS) Match(cx *layer4.Connection) (matched bool, err error)
+//@ requires wfm(cx)
+//@ requires[inv] m.logger != nil && forall i int :: 0 <= i && i < len(m.matchers) ==> !isnil(m.matchers[i])
+//@ safety C07 C04
+//@ implements[C06] (m github.com/mholt/caddy-l4/layer4.ConnMatcher) Match
+//@ ensures[C07,C06] err == nil || err == layer4.ErrConsumedAllPrefetchedBytes
+//@ ensures[C07] err != nil ==> !matched
+//@ ensures[C07] old(avail(cx)) >= 5 && old(cx.buf[cx.offset]) != 22 ==> !matched && err == nil
+//@ ensures[C07] (err == layer4.ErrConsumedAllPrefetchedBytes) == (old(avail(cx)) < 5 || (old(cx.buf[cx.offset]) == 22 && old(avail(cx)) < 5 + old(tlsreclen(cx))))
